@@ -10,6 +10,7 @@ import random
 
 from Bio.Seq import Seq
 
+from antismash.common import all_orfs
 from antismash.common.all_orfs import find_all_orfs, scan_orfs
 from antismash.common.secmet.features import SubRegion
 from antismash.common.secmet.locations import FeatureLocation as F
@@ -191,10 +192,12 @@ def gap_sequence(seed):
 def gene_menu():
     out = []
     for start in range(0, GAP_L, 3):
-        for length in (6, 12):
+        for length in (3, 6, 12):       # 3: a gene shorter than twice the allowed overlap, nested in the end of a longer one
             if start + length <= GAP_L:
                 out.append((start, length, 1 if start % 2 == 0 else -1))
     out.append((GAP_L - 3, 6, 1))   # origin-spanning (ring only)
+    out.append((GAP_L - 6, 12, 1))  # origin-spanning and long enough to have an interior beyond the allowed overlap
+    out.append((GAP_L - 3, 12, -1))
     return out
 
 
@@ -229,8 +232,31 @@ def check_gap(seed, circular, genes, area_kind, max_overlap, minlen=6):
     for start, length, _ in genes:
         for k in range(max_overlap, length - max_overlap):
             blocked.add((start + k) % GAP_L)
+    # the windows the search is made in (the same three-way dispatch as find_all_orfs): they decide what can be returned for any
+    # sequence, so they are judged directly, whether or not this sequence has an ORF there
+    try:
+        if area is None:
+            windows = all_orfs.find_intergenic_areas(0, GAP_L, rec.get_cds_features(), min_length=minlen, padding=max_overlap)
+        elif area.crosses_origin():
+            windows = all_orfs._find_cross_origin_intergenic(area, rec.get_cds_features(), rec, minlen, max_overlap)  # pylint: disable=protected-access
+        else:
+            windows = all_orfs.find_intergenic_areas(int(area.location.start), int(area.location.end),
+                                                     rec.get_cds_features_within_location(area.location, with_overlapping=True),
+                                                     min_length=minlen, padding=max_overlap)
+    except Exception as err:  # pylint: disable=broad-except
+        return [("gap-raised", f"{type(err).__name__}: {str(err)[:120]}")], 0
+    window_bases = set()
+    for first, last in windows:
+        covered = {x % GAP_L for x in range(first, last)}
+        window_bases |= covered
+        if covered & blocked:
+            fails.append(("search-window-inside-gene", f"window ({first},{last}) covers gene interior {sorted(covered & blocked)}"))
+        if not covered <= area_bases:
+            fails.append(("search-window-outside-area", f"window ({first},{last})"))
     for orf in found:
         bases = R.bases(orf.location)
+        if not bases <= window_bases:
+            fails.append(("gap-orf-outside-search-windows", f"{orf.location} windows {windows}"))
         text = str(orf.location.extract(rec.seq)).upper()
         valid = (len(text) % 3 == 0 and text[:3] in STARTS and text[-3:] in STOPS
                  and not any(text[i:i + 3] in STOPS for i in range(0, len(text) - 3, 3)))
@@ -257,7 +283,7 @@ def run_gap(seed, res):
                 if len({g[0] for g in genes}) < len(genes):
                     continue
                 for area_kind in ("none", "inner", "cross"):
-                    for max_overlap in (0, 1, 3):
+                    for max_overlap in (0, 1, 3, 4):
                         fails, count = check_gap(seed, circular, list(genes), area_kind, max_overlap)
                         if fails is None:
                             continue
